@@ -36,7 +36,7 @@ _CFG = {"items": 60, "seeds": 7, "randoms": 2, "perms": 6}
 def budgets(tier):
     if tier == "quick":
         return {"core": 1, "frontier": 0, "shards": 1, "items": 60, "seeds": 7, "randoms": 2, "perms": 6}
-    return {"core": 24, "frontier": 0, "shards": 4, "items": 60, "seeds": 31, "randoms": 4, "perms": 12}
+    return {"core": 24, "frontier": 0, "shards": 4, "items": 40, "seeds": 31, "randoms": 4, "perms": 12}
 
 
 def configure(tier, b):
@@ -66,7 +66,13 @@ def _batch(draw):
     n = _CFG["items"]
     items = draw(st.lists(_item(), min_size=n, max_size=n))
     n_conv = sum(6 if it["type"] == "definition" else 7 for it in items)
-    perms = [draw(st.lists(st.integers(0, n_conv - 1), min_size=20, max_size=60)) for _ in range(_CFG["perms"])]
+    # one drawn integer per permutation; the list of conversion indices derived from it is stored in the case itself
+    import random
+
+    perms = []
+    for _ in range(_CFG["perms"]):
+        r = random.Random(draw(st.integers(0, 2 ** 32 - 1)))
+        perms.append([r.randrange(n_conv) for _ in range(r.randint(20, 60))])
     return {"items": items, "perms": perms, "seeds": _CFG["seeds"], "randoms": _CFG["randoms"]}
 
 
